@@ -78,6 +78,10 @@ structure Tables where
   mems : List Mem := []
   /-- strict upper bound of every token id ever issued (AUTOINCREMENT / log index never reuse ids) -/
   tokBound : Nat := 0
+  /-- cluster mode: tokens with id ≥ this are known to the Raft FSM. 0 in a history that starts in
+  cluster mode; set to `tokBound` by the direct→cluster switch (tokens created before the switch
+  live in local SQLite only — the upgrade seed replicates organizations, nothing else). -/
+  fsmTokFrom : Nat := 0
 deriving Repr
 
 /-! ## the policy (cache-free evaluator) -/
@@ -162,19 +166,31 @@ def policy (tb : Tables) (k : Key) : Dec :=
 
 /-! ## state with both caches -/
 
+/-- the entry a capacity eviction removes (`for k := range cache { delete(cache, k); break }` — Go map
+iteration order, i.e. arbitrary). It is an INPUT of the check ops (recorded from the real run). -/
+inductive Victim
+  | perm (k : Key)
+  | tok (tid : Nat)
+deriving DecidableEq, Repr
+
 structure State where
   mode : Mode
   ttl : Int
   now : Int
+  /-- `maxCacheSize` of BOTH caches (each is bounded separately) -/
+  cap : Nat
   tb : Tables
-  /-- permission-result cache: key ↦ (result, expiresAt); newest binding first -/
+  /-- permission-result cache: key ↦ (result, expiresAt); one binding per key -/
   permCache : List (Key × Dec × Int)
-  /-- per-token RBAC data cache: token id ↦ (data, loadedAt); newest binding first -/
+  /-- per-token RBAC data cache: token id ↦ (data, loadedAt); one binding per token -/
   tokCache : List (Nat × TokData × Int)
+  /-- eviction oracle of the op being executed, and whether it has been consistent so far -/
+  orc : List Victim := []
+  orcOk : Bool := true
 deriving Repr
 
-def init (mode : Mode) (ttl now : Int) : State :=
-  { mode := mode, ttl := ttl, now := now, tb := {}, permCache := [], tokCache := [] }
+def init (mode : Mode) (ttl now : Int) (cap : Nat := 10000) : State :=
+  { mode := mode, ttl := ttl, now := now, cap := cap, tb := {}, permCache := [], tokCache := [] }
 
 /-- `permCache[key]` if present and `now.Before(expiresAt)`. -/
 def permLookup (s : State) (k : Key) : Option Dec :=
@@ -182,16 +198,45 @@ def permLookup (s : State) (k : Key) : Option Dec :=
   | some (d, e) => if s.now < e then some d else none
   | none => none
 
+/-- `evictPermCacheIfFull`: at capacity, one arbitrary entry (named by the oracle) goes. -/
+def evictPerm (s : State) : State :=
+  if s.permCache.length < s.cap then s
+  else match s.orc with
+    | .perm v :: rest =>
+      { s with permCache := s.permCache.filter (fun e => !(e.1 == v)), orc := rest,
+               orcOk := s.orcOk && s.permCache.any (fun e => e.1 == v) }
+    | _ => { s with orcOk := false }
+
+/-- `evictTokenCacheIfFull` — independent of the permission cache. -/
+def evictTok (s : State) : State :=
+  if s.tokCache.length < s.cap then s
+  else match s.orc with
+    | .tok v :: rest =>
+      { s with tokCache := s.tokCache.filter (fun e => !(e.1 == v)), orc := rest,
+               orcOk := s.orcOk && s.tokCache.any (fun e => e.1 == v) }
+    | _ => { s with orcOk := false }
+
+/-- load the token's data and store it (evicting first if the data cache is full) -/
+def loadTok (s : State) (tid : Nat) : State × TokData :=
+  let d := loadData s.tb tid
+  let s1 := evictTok s
+  ({ s1 with tokCache := (tid, d, s1.now) :: s1.tokCache.filter (fun e => !(e.1 == tid)) }, d)
+
 /-- `getTokenRBACData`: cached if `now.Sub(loadedAt) < ttl`, else load and store. -/
 def getData (s : State) (tid : Nat) : State × TokData :=
   match s.tokCache.lookup tid with
-  | some (d, at_) =>
-    if s.now - at_ < s.ttl then (s, d)
-    else (let d' := loadData s.tb tid; ({ s with tokCache := (tid, d', s.now) :: s.tokCache }, d'))
-  | none => (let d' := loadData s.tb tid; ({ s with tokCache := (tid, d', s.now) :: s.tokCache }, d'))
+  | some (d, at_) => if s.now - at_ < s.ttl then (s, d) else loadTok s tid
+  | none => loadTok s tid
 
 def storePerm (s : State) (k : Key) (d : Dec) : State :=
-  { s with permCache := (k, d, s.now + s.ttl) :: s.permCache }
+  let s1 := evictPerm s
+  { s1 with permCache := (k, d, s1.now + s1.ttl) :: s1.permCache.filter (fun e => !(e.1 == k)) }
+
+/-- `cleanupExpiredCache` (the per-minute sweep): token data older than the TTL and decisions past
+their expiry go — each cache by its own clock. -/
+def cleanup (s : State) : State :=
+  { s with tokCache := s.tokCache.filter (fun e => !(decide (s.now - e.2.2 > s.ttl))),
+           permCache := s.permCache.filter (fun e => !(decide (s.now > e.2.2))) }
 
 /-- `CheckPermission` for a verified token with own permissions `perms`; third component: cache hit. -/
 def checkLive (s : State) (perms : List Str) (k : Key) : State × Dec × Bool :=
@@ -235,20 +280,60 @@ def checkBatch (s : State) : List Key → State × List (Dec × Bool)
 inductive Inv | none | token | all
 deriving DecidableEq, Repr
 
+inductive Scan | always | ifData | never
+deriving DecidableEq, Repr
+
+/-- structure of `InvalidateTokenCache` in the CURRENT SOURCE (regenerated): does it drop the token's
+data entry, and when does it scan the permission cache for the token's decisions -/
+def tokDropsData : Bool := Arc.Generated.C20.tokenInvDropsData
+def tokPermScan : Scan :=
+  if Arc.Generated.C20.tokenInvPermScan == "always" then .always
+  else if Arc.Generated.C20.tokenInvPermScan == "if-data-cached" then .ifData
+  else .never
+def allClearsData : Bool := Arc.Generated.C20.allInvClearsData
+def allClearsPerm : Bool := Arc.Generated.C20.allInvClearsPerm
+
+def dropTokData (tid : Nat) (s : State) : State :=
+  { s with tokCache := s.tokCache.filter (fun e => !(e.1 == tid)) }
+def dropTokPerm (tid : Nat) (s : State) : State :=
+  { s with permCache := s.permCache.filter (fun e => !(e.1.tid == tid)) }
+
+/-- `InvalidateTokenCache`, parametrised by its per-cache structure -/
+def invalidateTokenWith (drops : Bool) (scan : Scan) (tid : Nat) (s : State) : State :=
+  let had := s.tokCache.any (fun e => e.1 == tid)
+  let s1 := if drops then dropTokData tid s else s
+  match scan with
+  | .always => dropTokPerm tid s1
+  | .ifData => if had then dropTokPerm tid s1 else s1
+  | .never => s1
+
+def invalidateAllWith (data perm : Bool) (s : State) : State :=
+  { s with tokCache := if data then [] else s.tokCache, permCache := if perm then [] else s.permCache }
+
 def invalidate (i : Inv) (tid : Nat) (s : State) : State :=
   match i with
   | .none => s
-  | .all => { s with permCache := [], tokCache := [] }
-  | .token => { s with permCache := s.permCache.filter (fun e => !(e.1.tid == tid)),
-                       tokCache := s.tokCache.filter (fun e => !(e.1 == tid)) }
+  | .all => invalidateAllWith allClearsData allClearsPerm s
+  | .token => invalidateTokenWith tokDropsData tokPermScan tid s
+
+/-- does the invalidator of the current source do what its name says, on BOTH caches, always -/
+def strong : Inv → Bool
+  | .none => true
+  | .token => tokDropsData && tokPermScan == .always
+  | .all => allClearsData && allClearsPerm
 
 /-- the 18 mutating entry points -/
 inductive Method
   | createOrg | updateOrg | deleteOrg | createTeam | updateTeam | deleteTeam
   | createRole | updateRole | deleteRole | createMP | deleteMP | addMem | removeMem
   | createToken | updateToken | revokeToken | deleteToken | rotateToken
+  /-- the two non-insert success paths of `ApplyCreateOrganization` (cluster-apply only): the same
+  (id, name) is already there (log replay); the name is there under ANOTHER id (upgrade seed / re-align:
+  delete the local row — cascading — and insert under the FSM's id) -/
+  | applyOrgReplay | applyOrgRealign
 deriving DecidableEq, Repr
 
+/-- the 18 API mutations -/
 def Method.all : List Method :=
   [.createOrg, .updateOrg, .deleteOrg, .createTeam, .updateTeam, .deleteTeam, .createRole, .updateRole,
    .deleteRole, .createMP, .deleteMP, .addMem, .removeMem, .createToken, .updateToken, .revokeToken,
@@ -262,6 +347,7 @@ def Method.goName : Method → String
   | .addMem => "AddTokenToTeam" | .removeMem => "RemoveTokenFromTeam"
   | .createToken => "CreateToken" | .updateToken => "UpdateToken" | .revokeToken => "RevokeToken"
   | .deleteToken => "DeleteToken" | .rotateToken => "RotateToken"
+  | .applyOrgReplay => "CreateOrganization:replay" | .applyOrgRealign => "CreateOrganization:realign"
 
 def Mode.goName : Mode → String
   | .direct => "direct" | .cluster => "cluster"
@@ -324,9 +410,16 @@ inductive Op
   | revokeToken (id : Nat)
   | deleteToken (id : Nat)
   | rotateToken (id : Nat)
+  /-- cluster-apply of a CreateOrganization entry stamped `newId` by the FSM (what the FSM callback
+  hands to `ApplyCreateOrganization`): insert, log replay, or re-align on a name collision -/
+  | applyCreateOrg (name : Str) (newId : Nat)
+  /-- the node joins a cluster: from now on writes are proposed and applied (`SetRaftProposer`) -/
+  | toCluster
   | advance (dt : Nat)
-  | check (k : Key)
-  | batch (ks : List Key)
+  /-- `cleanupExpiredCache` -/
+  | cleanup
+  | check (k : Key) (orc : List Victim)
+  | batch (ks : List Key) (orc : List Victim)
 deriving Repr
 
 def Op.method? : Op → Option Method
@@ -337,6 +430,7 @@ def Op.method? : Op → Option Method
   | .addMem .. => some .addMem | .removeMem .. => some .removeMem
   | .createToken .. => some .createToken | .updateToken .. => some .updateToken
   | .revokeToken .. => some .revokeToken | .deleteToken .. => some .deleteToken | .rotateToken .. => some .rotateToken
+  | .applyCreateOrg .. => none | .toCluster => none | .cleanup => none
   | .advance .. => none | .check .. => none | .batch .. => none
 
 /-- the token id an op is about (the argument of `InvalidateTokenCache`) -/
@@ -353,6 +447,11 @@ def hasMP (tb : Tables) (id : Nat) : Bool := tb.mps.any fun p => p.id == id
 def hasToken (tb : Tables) (id : Nat) : Bool := tb.tokens.any fun t => t.id == id
 def hasMem (tb : Tables) (tok team : Nat) : Bool := tb.mems.any fun m => m.tok == tok && m.team == team
 def hasMemId (tb : Tables) (id : Nat) : Bool := tb.mems.any fun m => m.id == id
+/-- whom the write path asks whether a token exists: local SQLite (direct) or the FSM (cluster) -/
+def knowsToken (mode : Mode) (tb : Tables) (id : Nat) : Bool :=
+  match mode with
+  | .direct => hasToken tb id
+  | .cluster => tb.tokens.any fun t => t.id == id && decide (tb.fsmTokFrom ≤ t.id)
 
 /-- ON DELETE CASCADE below the teams table: keep only children whose parent row remains. -/
 def cascade (tb : Tables) : Tables :=
@@ -442,7 +541,7 @@ def exec (mode : Mode) (tb : Tables) : Op → Res × Option Tables
       else if hasMemId tb newId then (.badid, none)
       else (.ok, some { tb with mems := ⟨newId, tok, team⟩ :: tb.mems })
     | .cluster =>
-      if !hasToken tb tok then (.notfound, none)
+      if !knowsToken .cluster tb tok then (.notfound, none)
       else if !hasTeam tb team then (.notfound, none)
       else if hasMem tb tok team then (.conflict, none)
       else if hasMemId tb newId then (.badid, none)
@@ -453,31 +552,59 @@ def exec (mode : Mode) (tb : Tables) : Op → Res × Option Tables
   | .createToken name perms newId =>
     -- only the FSM validates the verb list (`validatePermissionString`); AuthManager stores it verbatim
     if mode == .cluster && !perms.all validPermStr then (.invalid, none)
-    else if tb.tokens.any (fun t => t.name == name) then (.conflict, none)
+    else if tb.tokens.any (fun t => t.name == name && (mode == .direct || decide (tb.fsmTokFrom ≤ t.id))) then (.conflict, none)
+    -- cluster mode, name held by a pre-switch token the FSM does not know: FSM/SQLite diverge (not modelled)
+    else if tb.tokens.any (fun t => t.name == name) then (.error, none)
     else if newId < tb.tokBound then (.badid, none)
     else (.ok, some { tb with tokens := ⟨newId, name, perms, true⟩ :: tb.tokens, tokBound := newId + 1 })
   | .updateToken id perms =>
     if mode == .cluster && !perms.all validPermStr then (.invalid, none)
-    else if !hasToken tb id then (match mode with | .direct => (.notfound, none) | .cluster => (.ok, none))
+    else if !knowsToken mode tb id then (match mode with | .direct => (.notfound, none) | .cluster => (.ok, none))
     else (.ok, some { tb with tokens := tb.tokens.map fun t => if t.id == id then { t with perms := perms } else t })
   | .revokeToken id =>
-    if !hasToken tb id then (match mode with | .direct => (.notfound, none) | .cluster => (.ok, none))
+    if !knowsToken mode tb id then (match mode with | .direct => (.notfound, none) | .cluster => (.ok, none))
     else (.ok, some { tb with tokens := tb.tokens.map fun t => if t.id == id then { t with enabled := false } else t })
   | .deleteToken id =>
-    if !hasToken tb id then (match mode with | .direct => (.notfound, none) | .cluster => (.ok, none))
+    if !knowsToken mode tb id then (match mode with | .direct => (.notfound, none) | .cluster => (.ok, none))
     else (.ok, some { tb with tokens := tb.tokens.filter (fun t => !(t.id == id)),
                               mems := tb.mems.filter fun m => !(m.tok == id) })
   | .rotateToken id =>
-    if !hasToken tb id then (match mode with | .direct => (.notfound, none) | .cluster => (.ok, none))
+    if !knowsToken mode tb id then (match mode with | .direct => (.notfound, none) | .cluster => (.ok, none))
     else (.ok, some tb)
+  | .applyCreateOrg name newId =>
+    match mode with
+    | .direct => (.error, none)
+    | .cluster =>
+      if newId == 0 then (.error, none)
+      else if tb.orgs.any (fun o => o.id == newId) then
+        (if tb.orgs.any (fun o => o.id == newId && o.name == name) then (.ok, some tb)   -- log replay
+         else (.error, none))                                                           -- divergence: refused
+      else if tb.orgs.any (fun o => o.name == name) then
+        -- re-align: DELETE the local row of that name (ON DELETE CASCADE), INSERT under the FSM's id
+        let kept := tb.orgs.filter fun o => !(o.name == name)
+        let teams := tb.teams.filter fun t => kept.any fun o => o.id == t.org
+        (.ok, some (cascade { tb with orgs := ⟨newId, name, true⟩ :: kept, teams := teams }))
+      else (.ok, some { tb with orgs := ⟨newId, name, true⟩ :: tb.orgs })
+  | .toCluster => (.ok, none)
+  | .cleanup => (.ok, none)
   | .advance _ => (.ok, none)
-  | .check _ => (.ok, none)
-  | .batch _ => (.ok, none)
+  | .check _ _ => (.ok, none)
+  | .batch _ _ => (.ok, none)
+
+/-- which success path (hence which generated invalidation) an op takes on the current tables -/
+def methodAt (tb : Tables) : Op → Option Method
+  | .applyCreateOrg name newId =>
+    if tb.orgs.any (fun o => o.id == newId) then some .applyOrgReplay
+    else if tb.orgs.any (fun o => o.name == name) then some .applyOrgRealign
+    else some .createOrg
+  | op => op.method?
 
 inductive Out
   | res (r : Res)
   | dec (d : Dec) (hit : Bool)
   | decs (ds : List (Dec × Bool))
+  | sizes (perm tok : Nat)
+  | badOracle
 deriving Repr
 
 /-- a mutating op: run it on the tables; on its success path perform the GENERATED invalidation -/
@@ -486,14 +613,30 @@ def stepMut (s : State) (op : Op) (m : Method) : State × Out :=
   | (r, none) => (s, .res r)
   | (r, some tb') => (invalidate (invOf s.mode m) op.tokArg { s with tb := tb' }, .res r)
 
+def withOracle (s : State) (orc : List Victim) : State := { s with orc := orc, orcOk := true }
+def oracleUsedUp (s : State) : Bool := s.orcOk && s.orc.isEmpty
+
+def nextMode (mode : Mode) : Op → Mode
+  | .toCluster => .cluster
+  | _ => mode
+
 /-- one step of the system -/
 def step (s : State) (op : Op) : State × Out :=
   match op with
   | .advance dt => ({ s with now := s.now + dt }, .res .ok)
-  | .check k => let r := checkSingle s k; (r.1, .dec r.2.1 r.2.2)
-  | .batch ks => let r := checkBatch s ks; (r.1, .decs r.2)
+  | .cleanup => let s' := cleanup s; (s', .sizes s'.permCache.length s'.tokCache.length)
+  | .toCluster =>
+    (match s.mode with
+     | .cluster => s
+     | .direct => { s with mode := .cluster, tb := { s.tb with fsmTokFrom := s.tb.tokBound } }, .res .ok)
+  | .check k orc =>
+    let r := checkSingle (withOracle s orc) k
+    (withOracle r.1 [], if oracleUsedUp r.1 then .dec r.2.1 r.2.2 else .badOracle)
+  | .batch ks orc =>
+    let r := checkBatch (withOracle s orc) ks
+    (withOracle r.1 [], if oracleUsedUp r.1 then .decs r.2 else .badOracle)
   | op =>
-    match op.method? with
+    match methodAt s.tb op with
     | none => (s, .res .error)
     | some m => stepMut s op m
 
@@ -512,10 +655,11 @@ inductive Class | neutral | tokenLocal | tokenGone | global
 deriving DecidableEq, Repr
 
 def classOf : Method → Class
-  | .createOrg | .updateOrg | .createTeam | .createToken | .rotateToken => .neutral
+  | .createOrg | .updateOrg | .createTeam | .createToken | .rotateToken | .applyOrgReplay => .neutral
   | .addMem | .removeMem | .updateToken => .tokenLocal
   | .revokeToken | .deleteToken => .tokenGone
-  | .deleteOrg | .updateTeam | .deleteTeam | .createRole | .updateRole | .deleteRole | .createMP | .deleteMP => .global
+  | .deleteOrg | .updateTeam | .deleteTeam | .createRole | .updateRole | .deleteRole | .createMP | .deleteMP
+  | .applyOrgRealign => .global
 
 def covers : Class → Inv → Bool
   | .neutral, _ => true
@@ -526,19 +670,39 @@ def covers : Class → Inv → Bool
   | .global, .all => true
   | .global, _ => false
 
-/-- the generated invalidation of `m` in `mode` covers everything `m` can affect -/
-def sufficient (mode : Mode) (m : Method) : Bool := covers (classOf m) (invOf mode m)
+/-- mutations that need no invalidation whatever -/
+def needsNone : Class → Bool
+  | .neutral => true
+  | .tokenGone => true
+  | _ => false
+
+/-- the generated invalidation of `m` in `mode` covers everything `m` can affect — and the invalidator
+it names really clears BOTH caches unconditionally (`strong`, from the generated structure facts) -/
+def sufficient (mode : Mode) (m : Method) : Bool :=
+  needsNone (classOf m) || (covers (classOf m) (invOf mode m) && strong (invOf mode m))
 
 def allPairs : List (Mode × Method) :=
-  (Method.all.map fun m => (Mode.direct, m)) ++ (Method.all.map fun m => (Mode.cluster, m))
+  (Method.all.map fun m => (Mode.direct, m)) ++ (Method.all.map fun m => (Mode.cluster, m)) ++
+  [(Mode.cluster, .applyOrgReplay), (Mode.cluster, .applyOrgRealign)]
 
 /-- the mutations of the current source whose invalidation is NOT sufficient -/
 def insufficient : List (Mode × Method) := allPairs.filter fun p => !sufficient p.1 p.2
 
 /-- carve-out predicate of `C20_partial`: the op is not one of the insufficient mutations -/
 def opOk (mode : Mode) (op : Op) : Bool :=
-  match op.method? with
-  | none => true
-  | some m => sufficient mode m
+  match op with
+  | .applyCreateOrg .. =>
+    (match mode with
+     | .direct => true      -- refused outright in direct mode
+     | .cluster => sufficient .cluster .createOrg && sufficient .cluster .applyOrgReplay &&
+                   sufficient .cluster .applyOrgRealign)
+  | op => match op.method? with
+    | none => true
+    | some m => sufficient mode m
+
+/-- carve-out over a history, following the mode across a direct→cluster switch -/
+def okRun (mode : Mode) : List Op → Bool
+  | [] => true
+  | op :: ops => opOk mode op && okRun (nextMode mode op) ops
 
 end Arc.C20
